@@ -497,8 +497,8 @@ def generate(repo: str):
          f"  {b(s['set_requalifies'])}  (* set_requalifies *)",
          f"  {b(s['set_unqualified_raises'])}  (* set_unqualified_raises *)",
          f"  {b(s['set_strips_alias'])}  (* set_strips_alias *)",
-         f"  {b(u['target_is_phys'])}  (* target_is_phys_update *)",
-         f"  {b(d['target_is_phys'])}  (* target_is_phys_delete *)",
+         f"  {'TScan' if u['target_is_phys'] else 'TCte'}  (* target_update: the scanned Table node itself (keeps schema/catalog) *)",
+         f"  {'TScan' if d['target_is_phys'] else 'TCte'}  (* target_delete *)",
          f"  {b(u['has_where'])}  (* update_has_where *)",
          f"  {b(d['has_where'])}  (* delete_has_where *)",
          f"  {b(u['decorated'])}  (* ensure_cte_update *)",
